@@ -542,7 +542,12 @@ def refined(n, seed, radius):
         if np.any(np.abs(P[:, 2]) > 1 - 1e-6):
             continue
         hull = ConvexHull(P)
-        if hull.equations[:, 3].max() < -0.2 and len(hull.vertices) == len(P):
+        for _shrink in range(6):  # cluster points the hull code finds coplanar with their neighbours are left out
+            if len(hull.vertices) == len(P):
+                break
+            P = P[np.sort(hull.vertices)]
+            hull = ConvexHull(P)
+        if hull.equations[:, 3].max() < (-0.2 if _try < 500 else -0.05) and len(hull.vertices) == len(P) and len(P) >= 8:
             break
     else:
         raise RuntimeError("no refined point set found")
